@@ -506,7 +506,9 @@ def classify_refit(job, refit, fresh):
 def est_cases(ctx, job, static_names):
     """Run one history job in process: refit vs fresh, fresh vs fresh, trace. -> list of Case"""
     name = job['cls']
-    refit, _ = W.run_history(job)
+    refit, robj = W.run_history(job, trace=_trace_factory)
+    if refit['state'] is not None:
+        refit['state'] = _strip_trace(refit['state'])
     fresh_job = dict(job, params=refit['params_after'], history=[])
     # an explicit seed must determine the result on its own: the state of numpy's global generator is then made
     # *different* for the runs that are compared; without a seed parameter the global generator is the only handle
@@ -546,13 +548,15 @@ def est_cases(ctx, job, static_names):
                           dict(desc, check='fresh-vs-fresh', differs=d2)))
     elif d2:
         ctx.spec_fail(sig2, dict(desc, check='fresh-vs-fresh', differs=d2), {'observed': obs2})
-    # (3) trace conformance of the fresh object's fit
-    if name in static_names and hasattr(obj, '_c16_reads') and fresh['outcome'] == 'ok':
-        reads = [k for k in obj._c16_reads]
-        writes = [k for k in obj._c16_writes]
-        cases.append(Case(('trace', key[1]), dict(base_sig, kind='trace'), None, 'trace',
-                          'c16.spec_trace %s %s %s' % (name, ','.join(reads) or '-', ','.join(writes) or '-'),
-                          True, dict(desc, check='trace', reads=reads, writes=writes)))
+    # (3) trace conformance of the target fit: on the fresh object and on the object with a history (there a read of a
+    #     stale attribute shows up as a read outside `readsFirst`)
+    for tag, o, res in (('trace', obj, fresh), ('trace-refit', robj, refit)):
+        if name in static_names and hasattr(o, '_c16_reads') and res['outcome'] == 'ok':
+            reads = [k for k in o._c16_reads]
+            writes = [k for k in o._c16_writes]
+            cases.append(Case((tag, key[1]), dict(base_sig, kind='trace'), None, 'trace',
+                              'c16.spec_trace %s %s %s' % (name, ','.join(reads) or '-', ','.join(writes) or '-'),
+                              tag == 'trace', dict(desc, check=tag, reads=reads, writes=writes)))
     return cases, fresh, fresh_job
 
 
@@ -823,9 +827,14 @@ def _corpus(ctx):
 def run(ctx):
     import warnings
     warnings.simplefilter('ignore')
+    import time
     rng = ctx.rng
     quick = ctx.quick
+    t0 = time.time()
+    phases = {}
+    ctx.extra['phase_s'] = phases
     obligations(ctx)
+    phases['obligations'] = round(time.time() - t0, 1)
     names, static = _class_lists(ctx)
     cases = crs_cases(ctx)
     # corpus first
@@ -836,7 +845,7 @@ def run(ctx):
             cases += cs
             ctx.count('corpus')
     # generated histories
-    per_class = 24 if quick else 150
+    per_class = 16 if quick else 150
     sweep_jobs, sweep_inproc = [], {}
     for name in names:
         k = per_class if name not in SLOW_CLASSES else max(4, per_class // SLOW_CLASSES[name])
@@ -863,7 +872,9 @@ def run(ctx):
         ctx.count('entry:' + j['fn'])
         if obs != 'equal':
             ctx.spec_fail(dict(sig, kind='rerun-differs'), {'job': j, 'check': 'fresh-vs-fresh'}, {'observed': obs})
+    phases['histories'] = round(time.time() - t0, 1)
     evaluate(ctx, cases)
+    phases['lean_lines'] = round(time.time() - t0, 1)
     # fresh interpreters, thread counts
     tc = THREADS_QUICK if quick else THREADS_THOROUGH
     kj = kernel_jobs(rng, big=not quick)
@@ -875,6 +886,7 @@ def run(ctx):
     ctx.extra['sweep_jobs'] = len(sweep_jobs) + len(mj) + len(kj)
     ctx.impl_traces = ctx.evaluations + (len(sweep_jobs) + len(mj) + len(kj)) * len(tc) * (1 if quick else 2)
     report_sweep(ctx, bad)
+    phases['sweep'] = round(time.time() - t0, 1)
     ctx.exhaustive = False
 
 
